@@ -141,6 +141,17 @@ fn one_stream(i: u64, seed: u64, tier: Tier) -> Out {
     let mut sh = stream.clone();
     shuffle(&mut sh, &mut rng);
     check("shuffled", by_slice(kind, m, &sh), &mut out);
+    // a sketcher used before (previous stream ends with the first item of this one), then reinit
+    {
+        let mut s = make_usk(kind, m);
+        let mut prev: Vec<u64> = fresh_ids(&mut rng, 3, 0);
+        prev.push(stream[0]);
+        s.sketch_slice(&prev);
+        s.finish();
+        s.reinit();
+        s.sketch_slice(&stream);
+        check("after_reinit", s.bits(), &mut out);
+    }
     // dedup
     let mut dd = ids.clone();
     shuffle(&mut dd, &mut rng);
